@@ -89,6 +89,15 @@ add('C14', 'exploration', 'runtime monitoring on a virtual-time loop: subsequenc
     'quiescence after input stops, the newest arrival has been delivered.',
     '"Eventually" is decided as bounded progress: at quiescence of the virtual-time loop.', 'DESIGN.md#C14')
 
+add('C15', 'exploration', 'runtime monitoring: link-symmetry invariant after every edit + per-emit delivery history vs reference interpreter with editable edge set',
+    'Random histories of connect/disconnect/destroy/drop-reference interleaved with emissions (edits before and after '
+    'data has flowed); after every edit the public upstreams/downstreams are read and must be mutually consistent and '
+    'equal to the edge set of the history; after every emit what each node received from whom and what each sink was '
+    'called with is compared with the reference interpreter over the current edges; unreferenced sink-less branches must '
+    'stop being invoked after gc while unreferenced sinks keep receiving.',
+    'No parallel edges, no cycles; combine_latest without emit_on; leftover complete zip tuples at a disconnect may be '
+    'emitted at once, with the next element, or dropped.', 'DESIGN.md#C15')
+
 
 def main():
     props = [json.loads(l) for l in open(os.path.join(HERE, 'properties.jsonl'))]
